@@ -151,6 +151,78 @@ class Collector:
         }
 
 
+STALLED = [None]      # the first stall violation seen in this process (machines stop executing steps after it: no shrinking of stalls)
+
+
+CASE_CPU_LIMIT = int(os.environ.get("VERIF_CASE_CPU_LIMIT", "150"))     # seconds of *CPU time of this process* (not wall clock: load on the machine does not count)
+
+
+class cpu_guard:
+    """with cpu_guard(case): ...  -> Violation '<prop>|stall|...' when the block burns more than CASE_CPU_LIMIT seconds of user CPU time.
+    Virtual clocks make every case a matter of milliseconds; a case that spins for minutes is the code under test not terminating.
+    The alarm handler raises the Violation right inside the spinning code (which breaks the loop); event loops swallow exceptions raised in
+    callbacks, so the guard also remembers that it fired and raises at exit, and the timer keeps re-firing every 5 CPU-seconds."""
+
+    def __init__(self, case=None, what="case"):
+        self.case, self.what = case, what
+
+    def _violation(self):
+        return Violation("%s|stall|%s-did-not-finish|%s" % (os.environ.get("VERIF_PROP", "C??"), self.what, self.where),
+                         "more than %d s of CPU time in one %s (virtual clocks: a case normally takes milliseconds); innermost library frame when the alarm fired: %s" % (
+                             CASE_CPU_LIMIT, self.what, self.where), self.case)
+
+    def __enter__(self):
+        import signal
+        self.fired = 0
+        self.where = "?"
+
+        def on_alarm(sig, frm):
+            self.fired += 1
+            f = frm
+            while f is not None and self.where == "?":
+                fn = f.f_code.co_filename.replace("\\", "/")
+                if "/autobahn/" in fn:
+                    self.where = "%s:%s" % (fn.split("/autobahn/")[-1], f.f_code.co_name)
+                f = f.f_back
+            v = self._violation()
+            if STALLED[0] is None:
+                STALLED[0] = v
+            raise v
+        self._old = signal.signal(signal.SIGVTALRM, on_alarm)
+        signal.setitimer(signal.ITIMER_VIRTUAL, CASE_CPU_LIMIT, 5.0)
+        return self
+
+    def disarm(self):
+        import signal
+        signal.setitimer(signal.ITIMER_VIRTUAL, 0)
+        signal.signal(signal.SIGVTALRM, self._old)
+
+    def __exit__(self, et, ev, tb):
+        self.disarm()
+        if self.fired and not (isinstance(ev, Violation) and "|stall|" in ev.key):
+            raise STALLED[0] or self._violation()
+        return False
+
+
+def guarded_blocks(items, every=256, what="enumeration-block"):
+    """iterate over `items`; every block of `every` consecutive items runs under one cpu_guard (the alarm raises the stall Violation in the consumer's body)"""
+    import itertools
+    it = iter(items)
+    while True:
+        block = list(itertools.islice(it, every))
+        if not block:
+            return
+        g = cpu_guard({"check": "enumeration", "first_item_of_block": block[0]}, what)
+        g.__enter__()
+        try:
+            for x in block:
+                yield x
+        finally:
+            g.disarm()
+        if g.fired:
+            raise STALLED[0] or g._violation()
+
+
 def in_autobahn(tb_exc):
     """is the innermost frame of this exception inside the autobahn package?"""
     tb = traceback.extract_tb(tb_exc.__traceback__)
@@ -196,9 +268,15 @@ def run_hypothesis(col, name, strategy, body, max_examples, seed, shrink=True, r
 
         def make(_last):
             def wrapped(case):
+                if _last.get("stalled"):       # a stalling case costs minutes per execution: no shrinking, the first stalling case is the report
+                    raise _last["v"]
                 try:
-                    body(case)
+                    with cpu_guard(case):
+                        body(case)
                 except Violation as v:
+                    if "|stall|" in v.key and v.key not in col.known_open and v.key not in col.ignore_keys:
+                        _last["v"], _last["case"], _last["stalled"] = v, (v.case if v.case is not None else case), True
+                        raise
                     if v.key in col.known_open:      # listed finding: count it, the case ends here, the search goes on
                         col.known_hits[v.key] = col.known_hits.get(v.key, 0) + 1
                         return
